@@ -51,10 +51,6 @@ func refValidTag(s string) bool {
 
 var c18Alphabet = []byte{'a', 'z', '0', '9', '_', 'A', '-', '.', ' ', 0xc3}
 
-func keepBuiltinTags(name string) bool {
-	return name == "_app_def" || name == "_biz_def" || strings.HasPrefix(name, "_c0") || strings.HasPrefix(name, "_vf") || c02Universe[name]
-}
-
 func tryRegister(name string) (t *log.Tag, panicked any) {
 	defer func() { panicked = recover() }()
 	return log.RegisterTag(name), nil
@@ -232,7 +228,7 @@ func init() {
 			n = 5
 		}
 		p.Bounds = fmt.Sprintf("RegisterTag on every string of length <= %d over the alphabet, twice; GetAllTags compared with the registry model; app/biz/rpc helpers on a 7-string part alphabet", n)
-		log.VerifReset(keepBuiltinTags, nil)
+		log.VerifReset()
 		model := map[string]bool{}
 		for _, t := range log.GetAllTags() {
 			model[t] = true
@@ -275,7 +271,7 @@ func init() {
 			}
 			if batch++; !history && batch%500 == 0 {
 				verifyAll("batch")
-				log.VerifReset(keepBuiltinTags, nil)
+				log.VerifReset()
 				model = map[string]bool{}
 				for _, t := range log.GetAllTags() {
 					model[t] = true
@@ -323,7 +319,7 @@ func init() {
 			for l := 1; l <= hn; l++ {
 				hrec(l, 0)
 			}
-			log.VerifReset(keepBuiltinTags, nil)
+			log.VerifReset()
 			history = true
 			model = map[string]bool{}
 			for _, t := range log.GetAllTags() {
@@ -374,7 +370,7 @@ func init() {
 				}
 			}
 		}
-		log.VerifReset(keepBuiltinTags, nil)
+		log.VerifReset()
 		p.States = p.Executions
 		p.addObs("accept")
 		p.addObs("reject")
